@@ -3,6 +3,7 @@ CONSTANTS
   Callers = {"c1", "c2"}
   Cancellers = {"k1"}
   Periodic = TRUE
+  DeleteByName = FALSE
   DropOnClaim = FALSE
   MaxRuns = 3
   ScenLen = 22
